@@ -188,6 +188,36 @@ def _closure_of(fn, op, depth=0):
     return None
 
 
+def _fn_item_of(fn, op, depth=0):
+    """the function item a callee operand holds (a zero-sized constant of a `fn` type), through moves/copies/borrows"""
+    if depth > 12:
+        return None
+    if op.get('k') == 'const':
+        c = op.get('c') or {}
+        if c.get('k') == 'fn' and (c.get('fn') or c.get('name')):
+            return {'name': c.get('fn') or c.get('name'), 'generic': c.get('generic', '')}
+        return None
+    if op.get('k') not in ('copy', 'move') or [p for p in op['pl']['p'] if p != 'deref']:
+        return None
+    l = op['pl']['l']
+    defs = [st['rv'] for b, i, st in fn.stmts() if st['k'] == 'assign' and st['lhs']['l'] == l and not st['lhs']['p']]
+    if len(defs) != 1 or any(t['dest']['l'] == l and not t['dest']['p'] for _, t in fn.calls()):
+        return None
+    rv = defs[0]
+    if rv['k'] == 'use':
+        return _fn_item_of(fn, rv['op'], depth + 1)
+    if rv['k'] == 'ref' and not [p for p in rv['pl']['p'] if p != 'deref']:
+        return _fn_item_of(fn, {'k': 'copy', 'pl': {'l': rv['pl']['l'], 'p': []}}, depth + 1)
+    return None
+
+
+def _tuple_arity(fn, l):
+    defs = [st['rv'] for b, i, st in fn.stmts() if st['k'] == 'assign' and st['lhs']['l'] == l and not st['lhs']['p']]
+    if len(defs) == 1 and defs[0]['k'] == 'aggr' and defs[0].get('akind') == 'tuple':
+        return len(defs[0]['ops'])
+    return None
+
+
 def inline_new_helpers(F, vocab=None, rounds=6, keep=()):
     """returns {caller name: [inlined callee names]}"""
     vocab = load_vocab() if vocab is None else vocab
@@ -217,6 +247,17 @@ def inline_new_helpers(F, vocab=None, rounds=6, keep=()):
                     if tgt is not None and tgt in F.fns:
                         t['fn'] = dict(t['fn'], name=tgt, devirtualised=True)
                         cn = tgt
+                    else:
+                        # the callee value is a function item (`helper(.., mont_mul)`): a direct call with the tuple spread
+                        item = _fn_item_of(caller, t['args'][0])
+                        if item is not None and len(t['args']) == 2 and t['args'][1]['k'] in ('copy', 'move') and not t['args'][1]['pl']['p']:
+                            n_ = _tuple_arity(caller, t['args'][1]['pl']['l'])
+                            if n_ is not None:
+                                tl = t['args'][1]['pl']['l']
+                                t['args'] = [{'k': 'copy', 'pl': {'l': tl, 'p': [{'f': i_, 'name': str(i_), 'ty': ''}]}} for i_ in range(n_)]
+                                t['fn'] = {'k': 'def', 'name': item['name'], 'raw': item.get('raw', item['name']), 'generic': item.get('generic', ''),
+                                           'krate': item['name'].split('::')[0], 'local': item['name'] in F.fns, 'devirtualised': True}
+                                cn = item['name']
                 if cn not in new or cn == caller.name:
                     continue
                 callee = originals[cn]
